@@ -1278,6 +1278,7 @@ package mcp
 //@   track ss.onClose as hook
 //@   callee ss.onClose: modifies *
 //@   callee ss.keepaliveCancel: modifies extern
+//@   assume ss != nil && ss.conn != nil   // a session is created around its connection (Server.Connect)
 //@   modifies *
 //@   ensures @connection-closed-once-per-call calls(closeConn) == 1
 //@   ensures @hook-at-most-once-per-call calls(hook) <= 1 && (calls(hook) == 1 ==> calls(claim) == 1 && callResult(claim, 1, 0))
